@@ -136,7 +136,7 @@ PROPS["C02"] = {
     "lean_modules": ["StyluaModel.Props.C02"],
     "theorem_prefix": "C02_",
     "required_theorems": ["C02_type_meaning", "C02_type_reparses", "C02_type_entry", "C02_type_fresh_context_violates", "C02_expr", "C02_expr_parsed", "C02_expr_at", "C02_cond", "C02_string_51", "C02_string_52", "C02_number"],
-    "hx": [["c05"], ["c02t"], ["pipe"], ["slots"]],
+    "hx": [["c05"], ["c02t"], ["c08"], ["pipe"], ["slots"]],
     "level": "proof",
     "level_text": "Proof, partial: theorems state that every modelled edit kind preserves meaning for inputs of any size and every layout oracle — parentheses (expression trees, truncation), condition parentheses, string literal values (5.1 and 5.2+ readings), number spelling. Statement order, call sugar and table separators are covered by the independent normal-form oracle on the closed corpus set and by the correspondence, not yet by theorems.",
     "level_note": "Trusted: Lean kernel; models tied by correspondence (expr/strlit protocols); the harness normal form N (harness/src/nf.rs) is an independent checker over full_moon ASTs that never consults StyLua's own verify_ast.",
